@@ -41,12 +41,14 @@ def shard_cms(sh, part):
     reps = 50 if sh.tier == 'quick' else 1500
     widths = [1, 2, 3, 7, 64, 997, 1000, 1024, 12345, 2 ** 15]
     for t in range(reps):
-        ktype = rng.choice(['int', 'str'])
+        ktype = rng.choice(['int', 'str', 'mixed'])
         nk = rng.choice([1, 2, 5, 16, 200])
         if ktype == 'int':
             keys = (INT_KEYS + [rng.randint(-10 ** 9, 10 ** 9) for _ in range(nk)])
-        else:
+        elif ktype == 'str':
             keys = (STR_KEYS + ['k%d' % rng.randrange(10 ** 6) for _ in range(nk)])
+        else:      # ints and strings in one stream, including an int and its decimal spelling
+            keys = [17, '17', 0, '0', -1, '-1', 'a', 3, '3.0', 2 ** 32 + 5] + [rng.randint(0, 50) for _ in range(nk)] + ['%d' % rng.randint(0, 50) for _ in range(nk)]
         keys = rng.sample(keys, min(len(keys), nk)) if nk < len(keys) else keys
         # several sketches alive at the same time, fed interleaved
         sketches = []
@@ -121,6 +123,11 @@ def shard_counter(sh, part):
             if not ok:
                 return
             c['truth'][x] += 1
+            if rng.random() < 0.3:
+                # a reader looks up counts of a fixed vocabulary, including values never fed (reading must not change the counter)
+                for probe in ('never-fed-%d' % rng.randrange(5), x):
+                    got_ = c['c'].default_counter[probe]
+                    sh.check('counter-never-overcounts', got_ <= c['truth'].get(probe, 0), 'lookup-above-true-count', lambda: {'probe': repr(probe), 'got': got_})
             for c2 in counters:     # every instance, also the ones not updated (state must not leak between instances)
                 got = dict(c2['c'].default_counter)
                 wit = lambda: {'bound': c2['bound'], 'tracked': {repr(k): v for k, v in got.items()}, 'true_counts': {repr(k): v for k, v in c2['truth'].items()}, 'n_instances': len(counters)}  # noqa: E731
